@@ -330,16 +330,17 @@ def uLP : LP → Nat → Nat
   | .done p _ => u p
   | _ => fun _ => 0
 
-def LP.ok : LP → Prop
+def LP.ok (K : Nat) : LP → Prop
   | .pswap _ idx | .a3 _ idx | .a4 _ idx => idx < slotCnt
   | .fr1 _ _ => False        -- receiving end of a hand-over: stated separately
+  | .done _ d => ∀ n idx, d = some (n, idx) → n < K ∧ idx < slotCnt
   | _ => True
 
 /-- **Every step of `load` conserves** (both paths, whatever the shared state is): publishing a
     debt, confirming, giving it back on a mismatch or releasing what a writer paid meanwhile,
     counting the fallback candidate in and settling its slot, settling the slot after a hand-over. -/
 theorem stepLP_cons (K : Nat) (cfg : Cfg) (c : Nat) (s : Shared) (l : Locals) (b : Bool) (lp : LP)
-    (hk : lp.ok) (hn : l.node.getD 0 < K) (hb : Beyond s) (hf : (stepLP cfg c s l b lp).1.fault = none) :
+    (hk : lp.ok K) (hn : l.node.getD 0 < K) (hb : Beyond s) (hf : (stepLP cfg c s l b lp).1.fault = none) :
     Cons K s (stepLP cfg c s l b lp).1 (uLP lp) (uLP (stepLP cfg c s l b lp).2.2.1) := by
   intro a ha
   have u0 := u_zero a ha
@@ -453,9 +454,11 @@ theorem stepLP_handover_receives (K : Nat) (cfg : Cfg) (c : Nat) (s : Shared) (l
       = pot K s a + uLP (stepLP cfg c s l b (.fr1 cand j)).2.2.1 a := by
   simp only [stepLP, he, uLP]; omega
 
-theorem LP.ok_step (cfg : Cfg) (c : Nat) (s : Shared) (l : Locals) (b : Bool) (lp : LP) (hk : lp.ok)
-    (hnh : ∀ j, (s.nodes (l.node.getD 0)).control ≠ .env j) : (stepLP cfg c s l b lp).2.2.1.ok := by
+theorem LP.ok_step (K : Nat) (cfg : Cfg) (c : Nat) (s : Shared) (l : Locals) (b : Bool) (lp : LP) (hk : lp.ok K)
+    (hn : l.node.getD 0 < K)
+    (hnh : ∀ j, (s.nodes (l.node.getD 0)).control ≠ .env j) : (stepLP cfg c s l b lp).2.2.1.ok K := by
   have hpos := Consts.slotCnt_pos
+  have dn : (LP.done 0 none).ok K := fun n idx h => by cases h
   cases lp with
   | probe p i =>
     simp only [stepLP]
@@ -463,11 +466,23 @@ theorem LP.ok_step (cfg : Cfg) (c : Nat) (s : Shared) (l : Locals) (b : Bool) (l
     · exact Nat.mod_lt _ hpos
     · split <;> trivial
   | f5 g cand =>
-    simp only [stepLP]; (repeat' split) <;> first | trivial | (rename_i j hj; exact absurd hj (hnh j))
+    simp only [stepLP]; (repeat' split) <;>
+      first | trivial | (intro n idx h; cases h) | (rename_i j hj; exact absurd hj (hnh j))
   | fr1 cand j => exact absurd hk id
   | pswap p idx => exact hk
-  | a3 p idx => simp only [stepLP]; (repeat' split) <;> first | exact hk | trivial
-  | _ => simp only [stepLP] <;> (repeat' split) <;> trivial
+  | a3 p idx =>
+    simp only [stepLP]; split
+    · split
+      · intro n idx' h; simp only [Option.some.injEq, Prod.mk.injEq] at h
+        obtain ⟨rfl, rfl⟩ := h; exact ⟨hn, hk⟩
+      · exact hk
+    · exact dn
+  | done p d => exact hk
+  | fokPay cand => simp only [stepLP]; (repeat' split) <;> first | trivial | (intro n idx h; cases h)
+  | fokDec cand => simp only [stepLP]; intro n idx h; cases h
+  | frPay cand r => simp only [stepLP]; (repeat' split) <;> first | trivial | (intro n idx h; cases h)
+  | frDec cand r => simp only [stepLP]; intro n idx h; cases h
+  | _ => simp only [stepLP] <;> (repeat' split) <;> first | trivial | exact dn
 
 /-! ## The writer's walk (`Debt::pay_all`, helping included) -/
 
@@ -482,8 +497,7 @@ def uPP (p : Nat) : PP → Nat → Nat
   | _ => u p
 
 def PP.ok (K : Nat) : PP → Prop
-  | .slot n _ | .slotInc n _ => n < K
-  | .hload _ ld => ld.ok
+  | .hload _ ld => ld.ok K
   | .hinto _ r gi => gi.ok K r
   | _ => True
 
@@ -499,7 +513,7 @@ theorem uPP_nextSlot (p n j : Nat) : uPP p (PP.nextSlot n j) = u p := by
     released, and the spare is released at the end.  (The successful hand-over itself gives the
     replacement away: `stepPP_handover_gives`.) -/
 theorem stepPP_cons (K : Nat) (cfg : Cfg) (p c : Nat) (s : Shared) (l : Locals) (b : Bool) (pp : PP)
-    (hk : pp.ok K) (hn : l.node.getD 0 < K) (hb : Beyond s)
+    (hk : pp.ok K) (hn : l.node.getD 0 < K) (hb : Beyond s) (hK : s.nNodes ≤ K)
     (hnh : ∀ h r t m, pp = .h7 h r t m → (s.nodes h.who).control ≠ h.ctl)
     (hf : (stepPP cfg p c s l b pp).1.fault = none) :
     Cons K s (stepPP cfg p c s l b pp).1 (uPP p pp) (uPP p (stepPP cfg p c s l b pp).2.2.1) := by
@@ -604,7 +618,11 @@ theorem stepPP_cons (K : Nat) (cfg : Cfg) (p c : Nat) (s : Shared) (l : Locals) 
     · rename_i hj
       split
       · rename_i hc
-        have := pot_setFast K s n j .none a hk hj
+        have hnK : n < K := by
+          apply Classical.byContradiction; intro hge
+          have := (hb n (by omega)).1 j
+          rw [this] at hc; cases hc
+        have := pot_setFast K s n j .none a hnK hj
         rw [hc, ind_ptr, ind_none] at this
         split
         · rename_i h0; subst h0; rw [uPP_nextSlot]; simp only [uPP]; omega
@@ -612,7 +630,11 @@ theorem stepPP_cons (K : Nat) (cfg : Cfg) (p c : Nat) (s : Shared) (l : Locals) 
       · rw [uPP_nextSlot]; simp [uPP]
     · split
       · rename_i hc
-        have := pot_setHslot K s n .none a hk
+        have hnK : n < K := by
+          apply Classical.byContradiction; intro hge
+          have := (hb n (by omega)).2
+          rw [this] at hc; cases hc
+        have := pot_setHslot K s n .none a hnK
         rw [hc, ind_ptr, ind_none] at this
         split
         · rename_i h0; subst h0; rw [uPP_nextSlot]; simp only [uPP]; omega
@@ -714,17 +736,19 @@ def uCP (new : Nat) : CP → Nat → Nat
 def Guard.ok (K : Nat) (g : Guard) : Prop := ∀ n idx, g.debt = some (n, idx) → n < K ∧ idx < slotCnt
 
 def CP.ok (K cur : Nat) : CP → Prop
-  | .load ld => ld.ok
+  | .load ld => ld.ok K
+  | .dropNew old => old.ok K
   | .cx old => old.ptr = cur ∧ old.ok K
-  | .pay _ pp => pp.ok K
+  | .pay old pp => pp.ok K ∧ old.ok K
+  | .decOld old => old.ok K
   | .dropOld gd => gd.ok K
-  | _ => True
+  | .done old => old.ok K
 
 /-- **Every step of `compare_and_swap` conserves**: the exchange moves `new` into the container and
     the container's reference to `current` to the caller, who releases it after the walk; a failed
     exchange gives the guard back and tries again; a rejected `new` is released. -/
 theorem stepCP_cons (K N : Nat) (cfg : Cfg) (c cur new : Nat) (s : Shared) (l : Locals) (b : Bool) (cp : CP)
-    (hk : cp.ok K cur) (hn : l.node.getD 0 < K) (hc : c < N) (hb : Beyond s)
+    (hk : cp.ok K cur) (hn : l.node.getD 0 < K) (hc : c < N) (hb : Beyond s) (hK : s.nNodes ≤ K)
     (hnh : ∀ old h r t m, cp = .pay old (.h7 h r t m) → (s.nodes h.who).control ≠ h.ctl)
     (hf : (stepCP cfg c cur new s l b cp).1.fault = none) :
     ConsC K N s (stepCP cfg c cur new s l b cp).1 (uCP new cp) (uCP new (stepCP cfg c cur new s l b cp).2.2.1) := by
@@ -775,7 +799,7 @@ theorem stepCP_cons (K N : Nat) (cfg : Cfg) (c cur new : Nat) (s : Shared) (l : 
           simp only [hgd, ↓reduceIte, uCP]; omega
     · rename_i hq; simp only [hq] at hf; exact absurd hf (setFault_ne_none _ _)
   | pay old pp =>
-    have hcons := stepPP_cons K cfg old.ptr c s l b pp hk hn hb (fun h r t m e => hnh old h r t m (by rw [e]))
+    have hcons := stepPP_cons K cfg old.ptr c s l b pp hk.1 hn hb hK (fun h r t m e => hnh old h r t m (by rw [e]))
     have hfr := (stepPP_frame cfg old.ptr c s l b pp).1
     simp only [stepCP] at hf ⊢
     split
@@ -829,7 +853,7 @@ def uRP : RP → Nat → Nat
   | .done r => u r
 
 def RP.ok (K : Nat) : RP → Prop
-  | .load ld => ld.ok
+  | .load ld => ld.ok K
   | .attempt cur => cur.ok K
   | .cas cur _ cp => cur.ok K ∧ cp.ok K cur.ptr
   | .intoPrev cur prev gi => cur.ok K ∧ gi.ok K prev.ptr
@@ -854,7 +878,7 @@ theorem alloc_fault (s : Shared) (val : Nat) : (alloc s val).1.fault = s.fault :
     exchange or released by the failed `compare_and_swap`; the guards of the previous attempt and
     of the value replaced are given back or promoted. -/
 theorem stepRP_cons (K N : Nat) (cfg : Cfg) (c : Nat) (s : Shared) (l : Locals) (b : Bool) (tries : Nat) (rp : RP)
-    (hk : rp.ok K) (hn : l.node.getD 0 < K) (hc : c < N) (hb : Beyond s)
+    (hk : rp.ok K) (hn : l.node.getD 0 < K) (hc : c < N) (hb : Beyond s) (hK : s.nNodes ≤ K)
     (hnh : ∀ cur a old h r t m, rp = .cas cur a (.pay old (.h7 h r t m)) → (s.nodes h.who).control ≠ h.ctl)
     (hroom : ∀ cur, rp = .attempt cur → ∀ v, (s.heap (alloc s v).2.1).cnt = 0)
     (hf : (stepRP cfg c s l b tries rp).1.fault = none) :
@@ -893,7 +917,7 @@ theorem stepRP_cons (K N : Nat) (cfg : Cfg) (c : Nat) (s : Shared) (l : Locals) 
       rw [h2]; omega
   | cas cur x cp =>
     obtain ⟨hcur, hcp⟩ := hk
-    have hcons := stepCP_cons K N cfg c cur.ptr x s l b cp hcp hn hc hb
+    have hcons := stepCP_cons K N cfg c cur.ptr x s l b cp hcp hn hc hb hK
       (fun old h r t m e => hnh cur x old h r t m (by rw [e]))
     simp only [stepRP] at hf ⊢
     split
